@@ -86,6 +86,7 @@ type world struct {
 	// whole world (a package-level `var idMatcher = match.Type[string]("id")` used by many tests)
 	matcherCache map[string]bothMatcher
 	pkgTurn  bool
+	dead     bool
 	dirsBefore map[string]bool
 	optBuf     []func(*Config)
 	bufTurn  bool
@@ -797,6 +798,11 @@ func (w *world) exec(line string) {
 	if len(tok) == 0 {
 		return
 	}
+	if w.dead {
+		fmt.Fprintln(w.out, "dead")
+		fmt.Fprintln(w.ann, line)
+		return
+	}
 	if tok[0] == "nest" {
 		// nest <json|sajson|yaml> <cfg> <texec> <form> <doc> [matchers]: armed, made by the next op
 		if w.pending != nil {
@@ -1129,7 +1135,14 @@ func (w *world) exec1(line string) {
 	case "trimpath":
 		// trimpath <0|1>: the library's -trimpath mode (callers' directories unknown, relative snapshot directories are
 		// relative to the working directory); the working directory becomes the world's directory
-		isTrimBathBuild = tok[1] == "1"
+		if !setTrimpath(tok[1] == "1") {
+			// the tree under test has no such switch any more: nothing else of this world is executed (relative
+			// directories would be resolved next to the harness, inside the source tree)
+			w.dead = true
+			fmt.Fprintln(w.ann, line)
+			fmt.Fprintln(w.out, "trimpath unsupported")
+			return
+		}
 		os.Chdir(w.root)
 		fmt.Fprintln(w.ann, line)
 		fmt.Fprintln(w.out, "trimpath ok")
@@ -1435,7 +1448,7 @@ func TestVerifHarness(t *testing.T) {
 	homeDir, _ := os.Getwd()
 	newWorld := func() {
 		// (a `trimpath 1` / `chdir` of the previous world ends with it)
-		isTrimBathBuild = false
+		setTrimpath(false)
 		os.Chdir(homeDir)
 		if w != nil {
 			if w.pending != nil {
